@@ -523,7 +523,7 @@ def run(ctx):
                "(stores at %s); a cursor kept in a local until the loop ends is lost on the error exits and the next read() repeats the bytes" % st_)
     # input_data is cleared only together with closing stdin
     idw = writers.get("input_data", [])
-    takes = [bb for bb, t in ri.calls() if M.callee_str(t["f"]) == "std::option::Option::<T>::take" and M.noref(T.operand(t["args"][0])) == ("field", E.selfp, "stdin")]
+    takes = [bb for bb, kind, t in stdin_releases(ri, T, E.selfp)[0]]
     ctx.ob("R04.6", "input-dropped-only-when-done", all(dominated_by_blocks(ri, b, takes, start=min(E.loop)) for _, b in idw), ri.loc(0), "input_data is replaced only after stdin was closed (nothing undelivered is thrown away)")
 
 
